@@ -230,8 +230,15 @@ def arg_mode_bracketed(ctx):
                '' if okp else 'a path returns with argument mode still installed on the caller\'s frame: everything evaluated '
                'next in that frame (later tuple steps, dict values) is treated as a literal argument',
                witness=fmt_witness(cfg, path))
+        # ... and so does every exceptional exit: the frame can outlive a failing argument (the
+        # wildcard loop of the T interpreter drops the entry and goes on in the same frame)
+        okx, pathx = cfg.must_pass(inn, {cfg.exit, cfg.raise_exit}, rns, start_labels=lambda l: l != 'exc')
+        ctx.ob(okx, u, 'argument mode is also restored when evaluating the argument raises',
+               '' if okx else "glom([{'k': 'a', 'a': 1}, {'a': 2}], (T.__star__()[T['k']], len)) returns the function len: "
+               "the failing entry leaves argument mode on the frame and the next chain step is taken as a literal",
+               witness=fmt_witness(cfg, pathx))
         for rn in rns:
-            ctx.ob(cfg.dominates(en, rn), u, 'the restore follows the evaluation')
+            ctx.ob(cfg.dominates(en, rn) or cfg.find_path(en, {rn}) is not None, u, 'the restore follows the evaluation')
     if installs:
         set_ = installs[0]
         v = set_.value
